@@ -10,7 +10,6 @@ sys.path.insert(0, VERIF)
 
 NOT_APPLICABLE = {
     "C03": "Quantifies over run-time message schedules of the engine; deciding it needs a confluence proof of the message semantics or execution under permuted schedules, neither of which is a static check of the source.",
-    "C04": "Same as C03 for the unbuffered/random queues; the only structural fact (the documented subclasses exist) is not a necessary condition of agreement.",
     "C07": "Invariance of marginals under textual permutation is a semantic equivalence over runs of the tabling engine; no clause of it is visible in code shape.",
     "C10": "Validity of the d-DNNF is a property of the external dsharp binary's output; nothing in the Python source bounds it.",
     "C19": "World-splitting for findall/all is correct only by a semantic argument over all ground programs; no structural necessary condition could be isolated that is not already covered under C11/C13.",
